@@ -762,9 +762,12 @@ pub fn judge(case: &ThrCase, out: &RunOut, prop: Prop) -> R<CaseReport> {
     // C02: ready implies flagged, for every subscriber, in every thread and in the final polls
     for r in &out.recs {
         if let Kind::Poll { sub, res, prev_pending_woken: Some(false) } = &r.kind {
+            // after the join this is also C04's "ends on the final value": a task suspended on that
+            // waker would never have polled again
+            let props: &[Prop] = if r.main { &[C02, C04] } else { &[C02] };
             return fail(
                 prop,
-                &[C02],
+                props,
                 format!("subscriber {sub}: poll returned {:?} although the waker of its previous Pending poll was never woken ({})", res, sched()),
             );
         }
